@@ -42,7 +42,7 @@ func init() {
 			"the wall clock only moves forward inside a bubble; TLS is not simulated",
 			"the attacker tries MD5/hex/base64 of the counter values within +-64 of identifiers disclosed to it",
 		},
-		RequiredProbes: []string{"c11.allowed", "c11.denied", "c11.after-edit", "c11.held-session-after-edit"},
+		RequiredProbes: []string{"c11.allowed", "c11.denied", "c11.after-edit", "c11.held-session-after-edit", "c11.entry.wsp-play.granted", "c11.entry.wsp-play.refused", "c11.entry.ws-flv.granted", "c11.entry.ws-flv.refused", "c11.entry.hls-segment.granted", "c11.entry.rtsp-publish.granted", "c11.entry.rtsp-publish.refused"},
 	})
 }
 
@@ -277,10 +277,13 @@ func buildC11(tier string) sim.Scenario {
 				w.Fail("C11/false-refusal", "%s: user %s (pull=%q push=%q admin=%v) was refused %s on %s [%s] although the rights as last saved allow it (edited=%v)", kind, user, u.pull, u.push, u.admin, action, path, detail, edited)
 				return false
 			}
+			entry := strings.SplitN(kind, "(", 2)[0]
 			if got {
 				w.Probe("c11.allowed")
+				w.Probe("c11.entry." + entry + ".granted")
 			} else {
 				w.Probe("c11.denied")
+				w.Probe("c11.entry." + entry + ".refused")
 			}
 			return true
 		}
@@ -354,7 +357,7 @@ func buildC11(tier string) sim.Scenario {
 			user := names[tp.Choose(len(names))]
 			u := users[user]
 			path := paths[tp.Choose(len(paths))]
-			kind := tp.Choose(9)
+			kind := tp.Choose(11)
 			// users whose password or existence changed need a fresh login; the old token keeps naming the user
 			tok := tokens[user][0]
 			switch kind {
@@ -521,6 +524,49 @@ func buildC11(tier string) sim.Scenario {
 					}
 					adminTok = tokens["admin"][0]
 				}
+			case 9: // WebSocket-FLV
+				ws, resp, err := sw.wsDial(fmt.Sprintf("wsflv%d", q), "/streams"+path+".flv?token="+tok, "", nil)
+				st := 0
+				if resp != nil {
+					st = resp.StatusCode
+				}
+				got := false
+				if err == nil {
+					ws.SetReadDeadline(time.Now().Add(5 * time.Second))
+					if _, b, err := ws.ReadMessage(); err == nil && len(b) >= 3 && string(b[:3]) == "FLV" {
+						got = true
+					}
+					ws.Close()
+				}
+				verdict("ws-flv", user, "pull", path, got, fmt.Sprintf("handshake status %d", st))
+				w.Sleep(time.Second)
+			case 10: // WSP: control channel, data channel, DESCRIBE/SETUP/PLAY wrapped
+				cl, err := sw.wspConnect(fmt.Sprintf("wsp%d", q), path+"?token="+tok)
+				got := false
+				detail := ""
+				if err != nil {
+					detail = err.Error()
+				} else {
+					base := "rtsp://10.9.0.1:554" + path
+					m, err := cl.do("DESCRIBE", base, nil, "")
+					if err == nil && m.Status == 200 {
+						m, err = cl.do("SETUP", base+"/streamid=0", map[string]string{"Transport": "RTP/AVP/TCP;unicast;interleaved=0-1"}, "")
+						if err == nil && m.Status == 200 {
+							m, err = cl.do("PLAY", base, nil, "")
+							if err == nil && m.Status == 200 {
+								publishRTP(path, 4)
+								w.Sleep(500 * time.Millisecond)
+								got = cl.nframes() > 0
+							}
+						}
+					}
+					if m != nil {
+						detail = fmt.Sprintf("last status %d", m.Status)
+					}
+					cl.close()
+				}
+				verdict("wsp-play", user, "pull", path, got, detail)
+				w.Sleep(time.Second)
 			default: // attacker: derive tokens from identifiers the server discloses to an unauthenticated client
 				cl := sw.rtspConnect(fmt.Sprintf("att%d", q), 64<<10)
 				m, err := cl.do("DESCRIBE", "rtsp://10.9.0.1:554/live/a", nil, "")
